@@ -297,6 +297,7 @@ pub fn models(tier: Tier, seed: u64) -> Vec<Box<dyn DynModel>> {
         v.push(bounded(M12::<Bls12381G1Impl>::new(tier, seed), 10));
         v.push(bounded(M12::<Bls12381G2Impl>::new(tier, seed), 10));
     }
+    v.extend(crate::props::tsurf::models("C12", tier, seed));
     v
 }
 
